@@ -263,7 +263,8 @@ type Snapshot struct {
 	Claims       map[string]ClaimView         `json:"claims,omitempty"`
 }
 
-func viewPod(p *v1.Pod) PodView {
+// ViewPod renders the oracle's view of a pod.
+func ViewPod(p *v1.Pod) PodView {
 	v := PodView{Name: p.Name, NS: p.Namespace, UID: string(p.UID), Node: p.Spec.NodeName, Phase: string(p.Status.Phase), Deleting: p.DeletionTimestamp != nil}
 	set := map[string]bool{}
 	for k, val := range p.Labels {
@@ -307,7 +308,7 @@ func (s *Sim) Snapshot() *Snapshot {
 		if p.Namespace == ScalingNS {
 			continue
 		}
-		sn.Pods[p.Namespace+"/"+p.Name] = viewPod(p)
+		sn.Pods[p.Namespace+"/"+p.Name] = ViewPod(p)
 	}
 	sort.Slice(sn.Reservations, func(i, j int) bool {
 		a, b := sn.Reservations[i], sn.Reservations[j]
